@@ -239,6 +239,90 @@ theorem plain_single_lines (c : Config) (how : c.overwrite = false) (hq : c.quie
       cases hpl
       exact (this.2 ch hcl).2
 
+/-! ## the hypotheses are decided by the model on every real case
+
+`SingleChars c`, `c.barWidth < 2^52`, `CleanCfg c`, `CleanOp` and "no call raised" are conditions on
+the configuration of the REAL bar (after its setters ran) and on the texts passed to it.  They are
+executable (`singleCharsB`, `barWidthOkB`, `cleanCfgB`, `cleanOpsB`, `noErrB` in Model/Progress.lean);
+the driver answers them for the configuration it builds for every generated case (`hyp` of entry
+`c16.run`), the harness evaluates the same conditions on the real `ProgressBar` object and the two
+are compared: the theorems below apply to a real case exactly when the real object says so. -/
+
+/-- what the driver's `hyp` answers mean -/
+theorem hyps_decide (c : Config) (ops : List (Op × Nat)) (evs : List Event) :
+    (singleCharsB c = true ↔ SingleChars c) ∧ (barWidthOkB c = true ↔ c.barWidth < 2 ^ 52) ∧
+    (cleanCfgB c = true ↔ CleanCfg c) ∧ (cleanOpsB ops = true ↔ ∀ x ∈ ops, CleanOp x.1) ∧
+    (noErrB evs = true ↔ ∀ e ∈ evs, e.res.err = none) :=
+  ⟨singleCharsB_iff c, barWidthOkB_iff c, cleanCfgB_iff c, cleanOpsB_iff ops, noErrB_iff evs⟩
+
+/-- `bar_width` from the deciders -/
+theorem bar_width_dec (c : Config) (hc : singleCharsB c = true) (hw : barWidthOkB c = true) (m : Int)
+    (t0 : Nat) (ops : List (Op × Nat)) :
+    ∀ e ∈ run c (init m t0) ops, ∀ f b, e.res.frame = some f → f.bar = some b →
+      b.length = c.barWidth :=
+  bar_width c ((singleCharsB_iff c).mp hc) ((barWidthOkB_iff c).mp hw) m t0 ops
+
+/-- `finish_final` from the decider (evaluated on the events of the history itself) -/
+theorem finish_final_dec (c : Config) (m : Int) (t0 : Nat) (ops : List (Op × Nat)) (t : Nat)
+    (hq : c.quiet = false)
+    (herr : noErrB (run c (init m t0) (ops ++ [(Op.finish, t)])) = true) :
+    (runState c (init m t0) (ops ++ [(Op.finish, t)])).step =
+      (runState c (init m t0) (ops ++ [(Op.finish, t)])).max ∧
+    ∃ f, lastFrame none (run c (init m t0) (ops ++ [(Op.finish, t)])) = some f ∧
+      f.current = (runState c (init m t0) (ops ++ [(Op.finish, t)])).max ∧
+      f.max = (runState c (init m t0) (ops ++ [(Op.finish, t)])).max ∧
+      (f.max ≠ 0 → f.percent = 100) ∧
+      (c.overwrite = true →
+        ∃ e, (run c (init m t0) (ops ++ [(Op.finish, t)])).getLast? = some e ∧ e.res.frame = some f) :=
+  finish_final c m t0 ops t hq ((noErrB_iff _).mp herr)
+
+/-- `ansi_line_latest` from the deciders -/
+theorem ansi_line_latest_dec (c : Config) (hk : c.kind = .ansi) (hq : c.quiet = false)
+    (hc : cleanCfgB c = true) (m : Int) (t0 : Nat) (ops : List (Op × Nat)) (hops : cleanOpsB ops = true)
+    (evs1 : List Event) (e : Event) (evs2 : List Event)
+    (h : run c (init m t0) ops = evs1 ++ e :: evs2) :
+    (screen ⟨[], []⟩ (evs1 ++ [e])).text.length = e.res.st.lastLen ∧
+    (∀ f, e.res.frame = some f →
+      ∃ k, (screen ⟨[], []⟩ (evs1 ++ [e])).text = f.text ++ spaces k) ∧
+    (e.res.frame = none → e.res.writes ≠ [] →
+      ∃ k, (screen ⟨[], []⟩ (evs1 ++ [e])).text = spaces k) :=
+  ansi_line_latest c hk hq ((cleanCfgB_iff c).mp hc) m t0 ops ((cleanOpsB_iff ops).mp hops) evs1 e evs2 h
+
+/-- `plain_single_lines` from the deciders -/
+theorem plain_single_lines_dec (c : Config) (how : c.overwrite = false) (hq : c.quiet = false)
+    (hc : cleanCfgB c = true) (m : Int) (t0 : Nat) (ops : List (Op × Nat)) (hops : cleanOpsB ops = true) :
+    (∀ e ∈ run c (init m t0) ops, ∀ f, e.res.frame = some f →
+      plainLine e = some (ljust e.pre.lastLen f.text) ∧ Clean (ljust e.pre.lastLen f.text)) ∧
+    ∀ ch ∈ outOf (run c (init m t0) ops), ch ≠ '\r' :=
+  plain_single_lines c how hq ((cleanCfgB_iff c).mp hc) m t0 ops ((cleanOpsB_iff ops).mp hops)
+
+/-- **The defaults of the source qualify.**  A bar whose three characters were never set (the class
+attributes `bar_char`, `empty_bar_char`, `progress_char` of the current source, regenerated into
+`Gen.C16` on every run) has single characters, and it is single-line as soon as the text given to
+`set_format` (if any) is - whatever the other settings are. -/
+theorem default_chars_ok (kind : Kind) (quiet : Bool) (verbosity termWidth minTicks : Nat)
+    (maxTicks redraw barWidth : Option Nat) (format : Option Str) :
+    singleCharsB (mkConfig kind quiet verbosity termWidth minTicks maxTicks redraw barWidth
+      none none none format) = true ∧
+    cleanCfgB (mkConfig kind quiet verbosity termWidth minTicks maxTicks redraw barWidth
+      none none none format) = (match format with | some f => cleanB f | none => true) := by
+  constructor
+  · simp [singleCharsB, mkConfig, Gen.C16.defaultBarChar, Gen.C16.defaultEmptyBarChar,
+      Gen.C16.defaultProgressChar]
+  · cases format <;>
+      simp [cleanCfgB, cleanB, mkConfig, Gen.C16.defaultBarChar, Gen.C16.defaultEmptyBarChar,
+        Gen.C16.defaultProgressChar]
+
+/-- **The state the harness starts from.**  The correspondence calls `set_message(msg)` before the
+first operation and the driver starts the model from `init` with that message stored; this is the
+history with the call `set_message(msg)` put in front (an event without writes), so every theorem
+about `run c (init m t0) ops` covers those runs, with `CleanOp` demanded of that message too. -/
+theorem run_with_message (c : Config) (m : Int) (t0 : Nat) (msg : Str) (ops : List (Op × Nat)) :
+    ∃ e0, e0.res.writes = [] ∧ e0.res.frame = none ∧ e0.res.err = none ∧
+      run c (init m t0) ((.setMessage msg, t0) :: ops) =
+        e0 :: run c { init m t0 with messages := dictSet messageKey msg (init m t0).messages } ops :=
+  ⟨_, rfl, rfl, rfl, rfl⟩
+
 /-! ## The defect D18b (repaired) as a proved counterexample against the old `finish`, and non-vacuity -/
 
 /-- plain output, no maximum, format `%current%/%max% %percent%%` -/
@@ -322,5 +406,42 @@ example :
        (.setMessage ['x'], 64000), (.advance 1, 64000)]
     (screen ⟨[], []⟩ evs).text = ['x',' ',' ',' ',' ','1',' ',' ',' ',' ',' ',' ',' ',' ',' '] := by
   decide
+
+/-! ### every theorem with hypotheses, applied to the demo history (all hypotheses discharged) -/
+
+/-- the deciders on the demo configuration and history -/
+example : singleCharsB cAnsi = true ∧ barWidthOkB cAnsi = true ∧ cleanCfgB cAnsi = true ∧
+    cleanOpsB ops1 = true ∧ noErrB (run cAnsi (init 3 64000) ops1) = true := by decide
+
+/-- ... and they are not constantly true -/
+example : singleCharsB { cAnsi with progressChar := ['=', '>'] } = false ∧
+    cleanCfgB { cAnsi with internalFormat := some ['%','m','a','x','%','\n','%','b','a','r','%'] } = false ∧
+    cleanOpsB [(.setMessage ['a', '\r'], 0)] = false ∧
+    noErrB (run cPlainW (init 0 64000) [(.start none, 64000)]) = true ∧
+    noErrB (run (mkConfig .plain false 0 120 0 none none none none none none
+      (some ['%','r','e','m','a','i','n','i','n','g','%'])) (init 0 64000) [(.start none, 64000)]) = false := by
+  decide
+
+example := bar_width_dec cAnsi (by decide) (by decide) 3 64000 ops1
+example := bar_width cAnsi ((singleCharsB_iff _).mp (by decide)) (by decide) 3 64000 ops1
+
+/-- `finish_final`: `ops1` ends with `finish()` and nothing raises -/
+example := finish_final_dec cAnsi 3 64000
+  [(.start none, 64000), (.advance 1, 64001), (.advance 1, 64020)] 64021 (by decide) (by decide)
+
+/-- `throttle_spacing` / `throttle` / `max_always_draws`: in `ops1` the call `start` writes, the first
+`advance` is silent, the second one redraws at step 2 of 3, 20 ticks after the write (minimum 8) -/
+example : ∃ e1 e2 e3 e4, run cAnsi (init 3 64000) ops1 = [] ++ e1 :: ([e2] ++ e3 :: [e4]) ∧
+    e1.res.writes ≠ [] ∧ (∀ e ∈ [e2], e.res.writes = []) ∧ isAdvance e3.op = true ∧
+    e3.res.frame.isSome = true ∧ e3.res.st.step ≠ e3.res.st.max ∧ isAdvance e4.op = false := by
+  refine ⟨_, _, _, _, rfl, ?_, ?_, ?_, ?_, ?_, ?_⟩ <;> decide
+
+example := quiet_nothing { cAnsi with quiet := true } rfl (init 3 64000) ops1
+
+/-- `ansi_line_latest(_events)`, `plain_single_lines`, `plain_own_line` -/
+example := ansi_line_latest_dec cAnsi (by decide) (by decide) (by decide) 3 64000 ops1 (by decide)
+  [] _ _ rfl
+example := plain_single_lines_dec cPlainW (by decide) (by decide) (by decide) 0 64000 opsW (by decide)
+example := plain_own_line cPlainW (by decide) (by decide) 0 64000 opsW
 
 end Clikit.Props.C16
